@@ -49,6 +49,11 @@ def cases(tier, seed):
                              ("matnet_ffsp", "ffsp", dict(stages=2, mas=2, jobs=4, flatten=False)), ("matnet_ffsp", "ffsp", dict(stages=3, mas=2, jobs=5, flatten=False))):
         for r in range(3 if q else 10):
             out.append(dict(policy=kind, env=env, n=extra.get("size", 0) ** 2 or extra["jobs"] * extra["stages"], m=5 if q else 8, s=rnd.randrange(10**6), wseed=r, extra=extra))
+    # a model / env constructed for one size decoding instances of another size (generalisation runs), size-agnostic envs
+    for env in ("tsp", "cvrp", "cvrptw", "sdvrp", "svrp", "op", "mtvrp"):
+        for (n, n2) in (((6, 11), (10, 7)) if q else ((6, 11), (10, 7), (10, 20), (20, 50))):
+            for r in range(2 if q else 5):
+                out.append(dict(policy="am", env=env, n=n, inst_n=n2, m=6 if q else 8, s=rnd.randrange(10**6), wseed=r, extra={}, **({"multistart": n2} if r % 2 else {})))
     # mixture-of-experts encoder/decoder (MVMoE) with non-trivial gates
     for env in ("tsp", "cvrp", "mtvrp"):
         for n in ((6, 10) if q else (6, 10, 20)):
